@@ -12,7 +12,7 @@ import re
 import shutil
 import time
 
-from vcommon import Infra, build_harness, copy_specs, monitor_report, run, scratch_dir, tlc, tlc_errors, tlc_stats, tlc_violations
+from vcommon import Infra, drive, build_harness, copy_specs, monitor_report, run, scratch_dir, tlc, tlc_errors, tlc_stats, tlc_violations
 
 PROPS = ["C20", "C21", "C22"]
 DESIGN = {
@@ -65,9 +65,7 @@ def compute(tier, seed):
                 design["violations"].append({"cfg": cfg, "violated": ["expected counterexample of %s not found" % inv]})
         qbin = build_harness("query")
         outdir = os.path.join(work, "run")
-        rc, txt, hsecs = run([qbin, "-out", outdir, "-seed", str(seed), "-tier", tier], timeout=5400, check=False)
-        if rc != 0:
-            raise Infra("query harness failed: " + txt[-2000:])
+        txt, hsecs = drive([qbin, "-out", outdir, "-seed", str(seed), "-tier", tier], work, "query", timeout=5400)
         obs_path = os.path.join(outdir, "obs.ndjson")
         rep, stats = monitor(work, obs_path)
         obs = {}
